@@ -505,10 +505,29 @@ pub fn run_c15(cfg: &Config) -> i32 {
 									}
 								}
 							}
-							_ => {
-								let c = o.clone();
-								*o = c;
-							}
+							_ => match rng.below(3) {
+								0 => {
+									let c = o.clone();
+									*o = c;
+								}
+								1 => {
+									// filled through clone_from, from a used target
+									let mut t = json_syntax::Object::new();
+									t.push("old".into(), Value::Null);
+									t.clone_from(o);
+									*o = t;
+								}
+								_ => {
+									// grown to dozens of distinct keys, then cut back by removals from the front
+									let extra = 30 + rng.below(40);
+									for j in 0..extra {
+										o.push_front(format!("\u{1}junk{}", j).as_str().into(), Value::Null);
+									}
+									for _ in 0..extra {
+										o.remove_at(0);
+									}
+								}
+							},
 						}
 					}
 				}
@@ -783,7 +802,7 @@ pub fn run_c14(cfg: &Config) -> i32 {
 			};
 			// sometimes both values sit at the bottom of the same deep nest (comparison code may switch strategy with depth)
 			let (ra, rb) = if k % 50 == 7 {
-				let depth = rng.range(100, 260);
+				let depth = rng.range(100, 400);
 				let shape: Vec<bool> = (0..depth).map(|_| rng.chance(1, 2)).collect();
 				let wrap = |v: RVal| -> RVal {
 					let mut v = v;
@@ -794,7 +813,17 @@ pub fn run_c14(cfg: &Config) -> i32 {
 				};
 				rep.max("deepest_compared_nesting", depth as u64);
 				// regrouping variants of the same leaf sequence are the classic blind spot of flattened comparisons
-				let (x, y) = match rng.below(4) {
+				let (x, y) = match rng.below(6) {
+					// an object with duplicate keys at the bottom: against itself (clones must keep every entry) and
+					// against the collapsed form
+					4 => {
+						let d = RVal::Obj(vec![("k".into(), RVal::Num("1".into())), ("j".into(), RVal::Null), ("k".into(), RVal::Num("2".into())), ("k".into(), RVal::Num("1".into()))]);
+						(d.clone(), d)
+					}
+					5 => (
+						RVal::Obj(vec![("k".into(), RVal::Num("1".into())), ("j".into(), RVal::Null), ("k".into(), RVal::Num("2".into()))]),
+						RVal::Obj(vec![("k".into(), RVal::Num("2".into())), ("j".into(), RVal::Null)]),
+					),
 					0 => (RVal::Arr(vec![RVal::Arr(vec![RVal::Num("1".into())]), RVal::Num("2".into())]), RVal::Arr(vec![RVal::Arr(vec![RVal::Num("1".into()), RVal::Num("2".into())])])),
 					1 => (
 						RVal::Obj(vec![("a".into(), RVal::Obj(vec![("b".into(), RVal::Num("1".into()))])), ("c".into(), RVal::Num("2".into()))]),
@@ -1064,6 +1093,45 @@ pub fn run_c14(cfg: &Config) -> i32 {
 			}
 			rep
 		});
+		total.merge(rep);
+	}
+
+	// (b') total order over keys from the regions where byte order, code-point order and UTF-16 order
+	//      differ: all pairs and all triples of one-entry and two-entry objects over the pool
+	if !cfg.san {
+		let pool = ["", "a", "\u{e000}", "\u{e001}", "\u{ffff}", "\u{10000}", "\u{e000}\u{10000}", "\u{10000}\u{e000}", "\u{1f600}", "\u{10ffff}", "\u{d7ff}", "a\u{10000}", "a\u{e000}", "\u{fb33}", "\u{ff5e}z", "0123456789abcdef", "0123456789abcdefg", "0123456789abcde\u{10000}"];
+		let mut rvals: Vec<RVal> = pool.iter().map(|k| RVal::Obj(vec![(k.to_string(), RVal::Null)])).collect();
+		for (i, k) in pool.iter().enumerate().take(8) {
+			rvals.push(RVal::Obj(vec![("a".to_string(), RVal::Null), (k.to_string(), RVal::Num(i.to_string()))]));
+			rvals.push(RVal::Str(k.to_string()));
+		}
+		let vals: Vec<Value> = rvals.iter().map(from_rval).collect();
+		let n = vals.len();
+		let mut m = vec![Ordering::Equal; n * n];
+		for i in 0..n {
+			for j in 0..n {
+				m[i * n + j] = vals[i].cmp(&vals[j]);
+			}
+		}
+		let mut rep = Report::new();
+		let le = |x: usize, y: usize| m[x * n + y] != Ordering::Greater;
+		for i in 0..n {
+			for j in 0..n {
+				let desc = || json!({"sub": "cmp-pair", "a": doc_of(&rvals[i]), "b": doc_of(&rvals[j])});
+				c14_pair(&mut rep, "key-pool-order-family", &vals[i], &vals[j], rvals[i] == rvals[j], &desc);
+				for k in 0..n {
+					rep.count("triples_checked", 1);
+					if le(i, j) && le(j, k) && !le(i, k) {
+						rep.violation(
+							"C14:not-transitive",
+							format!("a <= b and b <= c but a > c for a={}, b={}, c={}", doc_of(&rvals[i]), doc_of(&rvals[j]), doc_of(&rvals[k])),
+							json!({"sub": "cmp-triple", "a": doc_of(&rvals[i]), "b": doc_of(&rvals[j]), "c": doc_of(&rvals[k])}),
+						);
+					}
+				}
+			}
+		}
+		rep.distinct_by_construction((n * n) as u64);
 		total.merge(rep);
 	}
 
